@@ -35,6 +35,14 @@ def build_sets(ctx):
             k = rng.randint(1, min(4, len(rc.variants(cat))))
             maps[cat] = rc.gen_map(rng, cat, rng.sample(rc.variants(cat), k), maxfiles=3)
         sets.append(rc.mk_case('all', maps, 'all:random'))
+    # file names for which numeric / natural / case-insensitive orders disagree with the byte order (and with each other)
+    fams = [['9_Vault.sol', '10_Router.sol', '20230917101500_Migration.sol', '2_Pool.sol'],
+            ['4294967295_a.sol', '4294967296_a.sol', '5_a.sol', '18446744073709551616_a.sol', '18446744073709551615_a.sol'],
+            ['a.sol', 'B.sol', 'A.sol', 'b.sol', 'á.sol', 'v1.10.sol', 'v1.9.sol', 'v1.2.sol']]
+    for cat in rc.CATS:
+        for fam in fams:
+            for p in rc.variants(cat)[:2]:
+                sets.append(rc.mk_case(cat, {cat: [[p, [[nm, [k + 1, k + 40]] for k, nm in enumerate(fam)]]]}, cat + ':name-family'))
     return [s for s in rc.corpus_cases('C13') + rc.corpus_cases('C12') + sets + rc.big_cases(rng)[:5] if s['wf']]
 
 
@@ -77,7 +85,13 @@ SOL = {k: v + '\n' * (_L - len(v.encode('utf-8'))) for k, v in SOL.items()}
 # copies of the top-level A.sol; {d3}/M.sol has the same patterns as the copies.
 LAYOUT = [('A.sol', 'A.sol'), ('B.sol', 'B.sol'), ('C.sol', 'C.sol'), ('{d1}/A.sol', 'C.sol'), ('{d1}/Z.sol', 'A.sol'),
           ('{d1}/{d2}/B.sol', 'B.sol'), ('{d3}/M.sol', 'B.sol'), ('{d4}/A.sol', 'A.sol'), ('{d5}/A.sol', 'A.sol'),
-          ('{d5}/M.sol', 'A.sol'), ('D.sol', 'D.sol'), ('{d3}/D.sol', 'D.sol'), ('skip.t.sol', 'A.sol'), ('notes.txt', 'A.sol')]
+          ('{d5}/M.sol', 'A.sol'), ('D.sol', 'D.sol'), ('{d3}/D.sol', 'D.sol'), ('skip.t.sol', 'A.sol'), ('notes.txt', 'A.sol'),
+          # a second name for a file (symbolic links; '@' + the path linked to): analysed under every name it has, in
+          # whatever order the names are discovered
+          # whatever order the names are discovered (link and target sit in directories of different ROLES: which of the two
+          # is listed first depends on the directory names, which change from tree to tree)
+          ('{d2link}/IShared.sol', '@{d4}/A.sol'), ('{d1}/{d2}/Again.sol', '@{d3}/M.sol'), ('Linked.sol', '@{d5}/M.sol'),
+          ('{d2link}/ITop.sol', '@B.sol')]
 DIR_NAMES = ['sub', 'other', 'deep', 'a', 'b', 'm', 'lib', 'src', 'zz', 'v1', 'v2', 'legacy', 'core', 'x', 'Y', '0']
 
 
@@ -90,13 +104,17 @@ def binary_runs(ctx, rng, n_trees, runs_per_tree):
     shutil.rmtree(base, ignore_errors=True)
     out = []
     for t in range(n_trees):
-        names = rng.sample(DIR_NAMES, 5)
-        order = [(rel.format(d1=names[0], d2=names[1], d3=names[2], d4=names[3], d5=names[4]), src) for rel, src in LAYOUT]
+        names = rng.sample(DIR_NAMES, 6)
+        fmt = dict(d1=names[0], d2=names[1], d3=names[2], d4=names[3], d5=names[4], d2link=names[5])
+        order = [(rel.format(**fmt), src.format(**fmt)) for rel, src in LAYOUT]
         rng.shuffle(order)
         root = os.path.join(base, 'tree%d' % t)
         for rel, src in order:
             path = os.path.join(root, 'contracts', rel)
             os.makedirs(os.path.dirname(path), exist_ok=True)
+            if src.startswith('@'):
+                os.symlink(os.path.relpath(os.path.join(root, 'contracts', src[1:]), os.path.dirname(path)), path)
+                continue
             with open(path, 'w') as f:
                 f.write(SOL[src])
         for r in range(runs_per_tree):
@@ -176,7 +194,7 @@ def run(rep, ctx):
         for order, o in bruns:
             firsts.setdefault(o if isinstance(o, str) else bytes(o), order)
         rep.violation(rc.CODES[31] + ' - the solstat binary on the same directory content (files created in different orders, fresh processes)',
-                      {'kind': 'S', 'input': {'binary': True, 'files': {rel: SOL[src] for rel, src in LAYOUT}},
+                      {'kind': 'S', 'input': {'binary': True, 'files': {rel: (SOL[src] if not src.startswith('@') else 'symbolic link to ' + src[1:]) for rel, src in LAYOUT}},
                        'theorem': 'render_set_function (with analyze_dir: run_deterministic)',
                        'distinct_outputs': [{'creation_order': order, 'report': o if isinstance(o, str) else rc.show(o, 1500)}
                                             for o, order in list(firsts.items())[:3]],
